@@ -388,6 +388,10 @@ def gen_faults(arch, tier, rng, budget=None):
             for bit in range(8):
                 add(("flip", o, bit))
             subs(o, 4)
+    # always: the first bytes and the last bytes of the file (end of the packed data, trailers, end markers)
+    for o in list(range(0, min(4, n))) + list(range(max(0, n - 16), n)):
+        for bit in range(8):
+            add(("flip", o, bit))
     if budget is None:
         budget = (150, 60, 40) if tier == "quick" else (1500, 500, 300)
     nf, ns, nt = budget
